@@ -2123,11 +2123,13 @@ Proof.
 Qed.
 
 
-Theorem parse_url_spec up parts : parse_url up = Some parts ->
-  exists scheme host port path query netloc,
-    up = UpOk scheme (Some host) port path query [] netloc /\ (scheme = WS_S \/ scheme = WSS_S) /\ host <> [] /\
+Theorem parse_url_spec unquote up parts : parse_url unquote up = Some parts ->
+  exists scheme host port rawpath query netloc,
+    up = UpOk scheme (Some host) port rawpath query [] netloc /\ (scheme = WS_S \/ scheme = WSS_S) /\ host <> [] /\
     u_host parts = host /\ u_secure parts = str_eqb scheme WSS_S /\
-    u_resource parts = (match path with [] => [47] | _ => path end) ++ (match query with [] => [] | _ => 63 :: query end) /\
+    (* the resource keeps the RAW (percent-escaped) path and query, character for character *)
+    u_resource parts = (match rawpath with [] => [47] | _ => rawpath end) ++ (match query with [] => [] | _ => 63 :: query end) /\
+    u_path parts = unquote (match rawpath with [] => [47] | _ => rawpath end) /\
     (1 <= u_port parts <= 65535)%Z /\
     match port with PortSome p => u_port parts = p | PortNone => u_port parts = (if str_eqb scheme WS_S then 80 else 443)%Z | PortRaises => False end.
 Proof.
@@ -2141,13 +2143,13 @@ Proof.
   assert (R : forall ppath : str, (match query with [] => ppath | _ => ppath ++ [63] ++ query end) = ppath ++ match query with [] => [] | _ => 63 :: query end).
   { intros pp. destruct query; [now rewrite app_nil_r|reflexivity]. }
   destruct port as [|p|]; [| |discriminate].
-  - intros H. injection H as <-. exists scheme, (h0 :: host), PortNone, path, query, netloc. cbn [u_host u_secure u_port u_resource].
+  - intros H. injection H as <-. exists scheme, (h0 :: host), PortNone, path, query, netloc. cbn [u_host u_secure u_port u_resource u_path].
     repeat split; try assumption; try discriminate; try apply R.
     + destruct (str_eqb scheme WS_S); lia.
     + destruct (str_eqb scheme WS_S); lia.
   - destruct ((p <? 1) || (65535 <? p))%Z eqn:B; [discriminate|]. apply orb_false_iff in B as [B1 B2].
     apply Z.ltb_ge in B1, B2. intros H. injection H as <-. exists scheme, (h0 :: host), (PortSome p), path, query, netloc.
-    cbn [u_host u_secure u_port u_resource]. repeat split; try assumption; try discriminate; try apply R.
+    cbn [u_host u_secure u_port u_resource u_path]. repeat split; try assumption; try discriminate; try apply R.
 Qed.
 
 
